@@ -69,3 +69,11 @@ pub fn decode_arg(args: &[String]) -> rodbus::DecodeLevel {
         other => panic!("--decode {other:?}: expected min or max"),
     }
 }
+
+/// PANIC, or SPIN when the scripted transport detected a reader that keeps reading after EOF
+pub fn panic_name(e: &Box<dyn std::any::Any + Send>) -> &'static str {
+    match e.downcast_ref::<&str>() {
+        Some(s) if *s == "SPIN" => "SPIN",
+        _ => "PANIC",
+    }
+}
